@@ -7,6 +7,8 @@ import (
 	"net/url"
 	"strings"
 
+	jose "github.com/go-jose/go-jose/v4"
+
 	httphelper "github.com/zitadel/oidc/v3/pkg/http"
 	"github.com/zitadel/oidc/v3/pkg/oidc"
 )
@@ -59,7 +61,11 @@ func Revoke(w http.ResponseWriter, r *http.Request, revoker Revoker) {
 		doDecrypt = false
 	}
 	if doDecrypt {
-		tokenID, userID, ok := getTokenIDAndSubjectForRevocation(r.Context(), revoker, token)
+		tokenID, userID, ok, err := getTokenIDAndSubjectForRevocation(r.Context(), revoker, token)
+		if err != nil {
+			RevocationRequestError(w, r, oidc.ErrServerError().WithParent(err))
+			return
+		}
 		if ok {
 			token = tokenID
 			subject = userID
@@ -156,7 +162,10 @@ func RevocationError(err error) StatusError {
 	return NewStatusError(e, status)
 }
 
-func getTokenIDAndSubjectForRevocation(ctx context.Context, userinfoProvider UserinfoProvider, accessToken string) (string, string, bool) {
+// getTokenIDAndSubjectForRevocation returns the id and subject of an access token issued by the provider.
+// A token that can not be read is not one of ours (ok is false). If a JWT could not be checked,
+// because the keys could not be obtained, an error is returned instead.
+func getTokenIDAndSubjectForRevocation(ctx context.Context, userinfoProvider UserinfoProvider, accessToken string) (string, string, bool, error) {
 	ctx, span := tracer.Start(ctx, "getTokenIDAndSubjectForRevocation")
 	defer span.End()
 
@@ -164,13 +173,40 @@ func getTokenIDAndSubjectForRevocation(ctx context.Context, userinfoProvider Use
 	if err == nil {
 		splitToken := strings.Split(tokenIDSubject, ":")
 		if len(splitToken) != 2 {
-			return "", "", false
+			return "", "", false, nil
 		}
-		return splitToken[0], splitToken[1], true
+		return splitToken[0], splitToken[1], true, nil
 	}
-	accessTokenClaims, err := VerifyAccessToken[*oidc.AccessTokenClaims](ctx, accessToken, userinfoProvider.AccessTokenVerifier(ctx))
+	keys := new(revocationKeySet)
+	accessTokenClaims, err := VerifyAccessToken[*oidc.AccessTokenClaims](ctx, accessToken, keys.verifier(userinfoProvider.AccessTokenVerifier(ctx)))
 	if err != nil {
-		return "", "", false
+		if keys.err != nil {
+			return "", "", false, keys.err
+		}
+		return "", "", false, nil
 	}
-	return accessTokenClaims.JWTID, accessTokenClaims.Subject, true
+	return accessTokenClaims.JWTID, accessTokenClaims.Subject, true, nil
+}
+
+// revocationKeySet remembers that the keys could not be obtained:
+// the verifier reports that like any other signature that does not verify.
+type revocationKeySet struct {
+	oidc.KeySet
+	err error
+}
+
+// verifier returns a copy of v that obtains its keys through k.
+func (k *revocationKeySet) verifier(v *AccessTokenVerifier) *AccessTokenVerifier {
+	verifier := *v
+	k.KeySet = v.KeySet
+	verifier.KeySet = k
+	return &verifier
+}
+
+func (k *revocationKeySet) VerifySignature(ctx context.Context, jws *jose.JSONWebSignature) ([]byte, error) {
+	payload, err := k.KeySet.VerifySignature(ctx, jws)
+	if errors.As(err, &keySetError{}) {
+		k.err = err
+	}
+	return payload, err
 }
